@@ -748,6 +748,43 @@ def formula_time(F, res):
             res.add([finding("FORMULA", key, where(f0), "%s computes %s, the built-in denotes %s" % (p.split("::")[-1], symexpr.show(e), symexpr.show(spec)))])
 
 
+def arith_kind(F, res):
+    """KIND: integer and multi-asset arithmetic keep their kind.  Every `Ok(..)` that `Arithmetic::add` / `neg` of the number
+    impl (Self = i128) or of the asset impl (Self: Into<CanonicalAssets>) builds itself is `Expression::Number(..)` resp.
+    `Expression::Assets(..)` - never `None` or another variant.  `None` is the *absent* operand (`None + y = y`, and, listed
+    under C02/SUBID, `None - y = y`): a sum or negation that can come out as `None` makes a later subtraction in the same chain
+    drop its sign.  Delegations (`self.add(other.neg()?)`) are followed by the impl they call."""
+    from ..common import with_helpers
+    ARITH = "tx3_tir::reduce::Arithmetic"
+    EXPRT = "tx3_tir::model::v1beta0::Expression"
+    n = 0
+    for f0 in sorted(F.fns.values(), key=lambda g: g["path"]):
+        if f0.get("impl_trait") != ARITH or f0.get("name") not in ("add", "neg") or f0.get("impl_self") == EXPRT:
+            continue
+        want = "Number" if f0["impl_self"] == "i128" else "Assets"
+        f = with_helpers(F, f0["path"])
+        du = mir.DefUse(f)
+        kinds = set()
+        for o in mir.provenance(f, du, {"l": 0, "p": []}):
+            if o.kind == "agg" and o.rv.get("variant") == "Ok" and o.rv.get("ops"):
+                for o2 in mir.provenance(f, du, o.rv["ops"][0]):
+                    if o2.kind == "agg" and o2.rv.get("adt") == EXPRT:
+                        kinds.add(o2.rv.get("variant"))
+                    elif o2.kind == "const" and EXPRT in str(o2.const.get("ty", "")):
+                        kinds.add(o2.const.get("variant") or "None")
+        if not kinds:
+            continue
+        n += 1
+        key = "%s|result kind" % f0["path"]
+        if kinds == {want}:
+            res.add([ok("KIND", key, where(f0), "every Ok(..) built here is Expression::%s" % want)])
+        else:
+            res.add([finding("KIND", key, where(f0), "%s of %s can yield Expression::%s: `None` is the absent operand (`None - y` is `y`), so a chain like `a - b - c` loses the sign of `c` when `a - b` comes out this way" % (
+                f0["name"], "numbers" if want == "Number" else "asset bags", "/".join(sorted(kinds - {want}))))])
+    res.count("arithmetic impls with a result kind", n)
+    res.floor("arithmetic impls with a result kind", n, 4)
+
+
 def run(ctx_):
     F = ctx_.F
     res = Result("C01")
@@ -780,4 +817,8 @@ def run(ctx_):
         res.add([o])
     res.rule("FORMULA", "slot_to_time / time_to_slot are the affine maps anchored at the chain cursor, as canonical symbolic forms")
     formula_time(F, res)
+    res.rule("OPTIONAL", "only optional outputs that carry nothing are left out (truth table of the filter predicate; shared with C02)")
+    c02.optional_rule(F, res)
+    res.rule("KIND", "number and asset arithmetic keep their kind (never yield the absent operand None)")
+    arith_kind(F, res)
     return res
